@@ -1255,7 +1255,9 @@ class Interp:
                 if k.arg is None:
                     d = self.known_dict(q, v)
                     if d is None:
-                        if isinstance(fv, ClsV) and fv.name == "dict":
+                        if (isinstance(fv, ClsV) and fv.name == "dict") or isinstance(fv, FuncV):
+                            # handed on as one mapping: a callee with a **kwargs parameter (or a
+                            # contract) receives it; any other callee is out of reach (calls.py)
                             kws["$symbolic_kwargs"] = v
                             continue
                         raise OutOfReach("**kwargs of unknown keys")
